@@ -1,9 +1,473 @@
 import Pandora.Drv.Util
+import Pandora.Model.C15
+import Pandora.Spec.C15
 
+/-!
+Line-protocol driver of C15: parses the case description produced by harness/cmd/c15, instantiates the
+model's `World` with the scripted target / the harness's template fragments, prints the model's observation
+and judges the implementation's observation with `Spec.C15`.
+-/
 namespace Pandora.Drv.C15
-open Pandora.Drv
+open Pandora.Drv Pandora.Model.C15
+open Pandora.Spec.C15 (specSteps ringOK shotVerdict roundRobinOK OEv)
 
-/-- stub: replaced when the property's model driver is written -/
-def handle : Handler := fun _ _ => ("-", "skip:not-built")
+/-! ### escaping (mirror of harness/cmd/c15/common.go) -/
+
+def hexU (n : Nat) : Char :=
+  if n < 10 then Char.ofNat (n + '0'.toNat) else Char.ofNat (n - 10 + 'A'.toNat)
+
+def utf8Bytes (c : Char) : List Nat := (String.singleton c).toUTF8.toList.map (·.toNat)
+
+def escWith (extra : List Char) (s : List Char) : String :=
+  String.ofList (s.flatMap fun c =>
+    if c.isAlphanum && c.toNat < 128 || c == '_' || c == '.' || c == '(' || c == ')' || c == '+' || c == '-' || extra.contains c
+    then [c]
+    else (utf8Bytes c).flatMap fun b => ['%', hexU (b / 16), hexU (b % 16)])
+
+def esc (s : String) : String := escWith [] s.toList
+def escv (s : String) : String := escWith [',', '/'] s.toList
+
+/-- %XX → bytes → UTF-8 decode -/
+def unescBytes : List Char → List UInt8
+  | '%' :: a :: b :: rest =>
+    match hexDigit a, hexDigit b with
+    | some x, some y => UInt8.ofNat (x * 16 + y) :: unescBytes rest
+    | _, _ => ('%'.toNat.toUInt8) :: unescBytes (a :: b :: rest)
+  | c :: rest => (String.singleton c).toUTF8.toList ++ unescBytes rest
+  | [] => []
+
+def unesc (s : String) : String :=
+  let bs := ByteArray.mk (unescBytes s.toList).toArray
+  match String.fromUTF8? bs with
+  | some r => r
+  | none => s
+
+def splitNE (s : String) (sep : String) : List String := if s.isEmpty then [] else s.splitOn sep
+
+/-! ### scenario descriptions -/
+
+structure ScIn where
+  cfg : ScenarioCfg
+  weightGiven : Bool
+
+def parseIntField (s : String) : Int := if s == "-" || s.isEmpty then 0 else (s.toInt?).getD 0
+
+def parseSc (s : String) : List ScenarioCfg :=
+  (splitNE s ";").map fun one =>
+    match one.splitOn ":" with
+    | n :: w :: m :: rest =>
+      let shoots := String.intercalate ":" rest
+      { name := (unesc n).toList, weight := parseIntField w, minWaitingTime := parseIntField m,
+        requests := (splitNE shoots "|").map fun sh => (unesc sh).toList }
+    | _ => { name := (unesc one).toList, weight := 0, minWaitingTime := 0, requests := [] }
+
+def descr {ρ} (sc : Scenario ρ) : String :=
+  esc (String.ofList sc.name) ++ "@" ++ toString sc.minWaitingTime ++ "[" ++
+    String.intercalate "," (sc.steps.map fun st => esc (String.ofList st.name) ++ "/" ++ toString st.sleep) ++ "]"
+
+def dedup (l : List String) : List String :=
+  l.foldl (fun acc x => if acc.contains x then acc else acc ++ [x]) []
+
+def outcomeStr {α} (o : Outcome α) (f : α → String) : String :=
+  match o with
+  | .ok a => f a
+  | .err "parse" => "err=parse"
+  | .err "notfound" => "err=notfound"
+  | .err e => "err=other:" ++ e
+  | .panic p => "panic:" ++ p
+
+def lastWins (names : List (List Char)) (k : List Char) : Option Unit :=
+  if names.contains k then some () else none
+
+/-- is every number of the description small enough for int64 ms→ns arithmetic not to wrap? -/
+def smallNums (scs : List ScenarioCfg) : Bool :=
+  scs.all fun sc => sc.weight.natAbs < 1000000 && sc.minWaitingTime.natAbs < 1000000000 &&
+    sc.requests.all fun sh => match parseShootName sh with
+      | .ok it => it.cnt.natAbs < 100000 && it.sleep.natAbs < 1000000000
+      | .error _ => true
+
+def allDistinct {α} [BEq α] : List α → Bool
+  | [] => true
+  | x :: xs => !xs.contains x && allDistinct xs
+
+/-- a `sleep` item with no executed step before it (the index −1 site, property C13) -/
+def leadingSleep : List Item → Bool → Bool
+  | [], _ => false
+  | it :: rest, seen =>
+    if it.name == sleepName then (!seen) || leadingSleep rest seen
+    else leadingSleep rest (seen || it.cnt > 0)
+
+/-- the property's domain for a scenario list; otherwise the reason for `skip` -/
+def domain (reqNames : List (List Char)) (scs : List ScenarioCfg) : Option String :=
+  if !smallNums scs then some "huge-number"
+  else if scs.any (fun sc => sc.weight < 0) then some "negative-weight"
+  else if !allDistinct (scs.map (·.name)) then some "duplicate-scenario-names"
+  else if scs.any (fun sc => sc.requests.any fun sh => (parseShootName sh).toOption.isNone) then some "malformed-item"
+  else if scs.any (fun sc => sc.requests.any fun sh => match parseShootName sh with
+      | .ok it => it.name != sleepName && !reqNames.contains it.name | _ => false) then some "unknown-request"
+  else if scs.any (fun sc => leadingSleep (sc.requests.filterMap fun sh => (parseShootName sh).toOption) false)
+    then some "leading-sleep(C13)"
+  else none
+
+def specDescr (sc : ScenarioCfg) : Option String :=
+  (specSteps (sc.requests.filterMap fun sh => (parseShootName sh).toOption)).map fun steps =>
+    esc (String.ofList sc.name) ++ "@" ++ toString sc.minWaitingTime ++ "[" ++
+      String.intercalate "," (steps.map fun (n, s) => esc (String.ofList n) ++ "/" ++ toString s) ++ "]"
+
+/-! ### kind=prov -/
+
+def handleProv (kv : List (String × String)) (impl : String) : String × String :=
+  let n := (getN? kv "n").getD 0
+  let reqNames := (splitNE (getS kv "rq") "|").map fun s => (unesc s).toList
+  let scs := parseSc (getS kv "sc")
+  let ring := decodeAmmo (lastWins reqNames) scs
+  let mobs := outcomeStr ring fun ring =>
+    let deliv := (List.range n).filterMap fun k => deliver ring k
+    "ok ring=" ++ String.intercalate "|" (deliv.map fun a => esc (String.ofList a.name)) ++
+      " sc=" ++ String.intercalate ";" (dedup (deliv.map descr))
+  let verdict :=
+    match domain reqNames scs with
+    | some why => "skip:" ++ why
+    | none =>
+      if !impl.startsWith "ok " then s!"fail:crash:{impl.take 60}" else
+      let ikv := parseKV impl
+      let deliv := (splitNE (getS ikv "ring") "|").map fun s => (unesc s).toList
+      let descrs := splitNE (getS ikv "sc") ";"
+      if deliv.length != n && !scs.isEmpty then s!"fail:count:delivered {deliv.length} of {n}"
+      else if !ringOK (scs.map (·.name)) (scs.map (·.weight)) deliv then "fail:weights:deliveries are not in proportion to the weights"
+      else
+        -- every delivered scenario has the step list its request list means
+        let want := scs.filterMap fun sc => (specDescr sc).map fun d => (sc.name, d)
+        let bad := descrs.find? fun d => !(want.any fun (_, w) => w == d)
+        match bad with
+        | some d => s!"fail:mult:{d}"
+        | none => "ok"
+  (mobs, verdict)
+
+/-! ### kind=gun: concrete requests, target script, templating -/
+
+structure CReq where
+  name : String
+  method : String
+  pre : List (String × String)     -- var ↦ code, sorted by var
+  uri : List String
+  body : List String
+  post : List String
+deriving Repr
+
+def strLe (a b : String) : Bool := a < b || a == b
+
+def parseReqs (s : String) : List CReq :=
+  (splitNE s ";").map fun one =>
+    let f := one.splitOn ":"
+    let g (i : Nat) := f.getD i ""
+    let pre := (splitNE (g 2) "|").filterMap fun p =>
+      match p.splitOn "=" with
+      | k :: v :: rest => some (k, String.intercalate "=" (v :: rest))
+      | _ => none
+    { name := g 0, method := if g 1 == "P" then "POST" else "GET",
+      pre := pre.mergeSort (fun a b => strLe a.1 b.1),
+      uri := splitNE (g 3) "|", body := splitNE (g 4) "|", post := splitNE (g 5) "|" }
+
+def prePath (code : String) : String :=
+  if code == "n" then "source.users[next].id"
+  else if code == "l" then "source.users[last].name"
+  else if code == "r" then "source.users[rand].name"
+  else if code.startsWith "i" then "source.users[" ++ (code.drop 1).toString ++ "].name"
+  else if code.startsWith "q" then
+    match ((code.drop 1).toString).splitOn "." with
+    | [x, k, y] => "request." ++ x ++ "." ++ (if k == "post" then "postprocessor" else "preprocessor") ++ "." ++ y
+    | _ => code
+  else code
+
+def valText : Val → String
+  | .str s => s
+  | .num i => toString i
+  | .nil => "<nil>"
+  | .map _ => "map[]"
+  | .list _ => "[]"
+
+def lookupPath (t : List (String × Val)) : List String → Option Val
+  | [] => some (.map t)
+  | [k] => getKey k t
+  | k :: rest => match getKey k t with
+    | some (.map m) => lookupPath m rest
+    | _ => none
+
+/-- one template fragment; `none` = text/template execution error -/
+def renderPart (rows : Nat) (t : List (String × Val)) (p : String) : Option String :=
+  let body := (p.drop 1).toString
+  match p.toList.head? with
+  | some 'c' => some body
+  | some 'p' | some 'e' =>
+    match body.splitOn "." with
+    | x :: rest =>
+      let y := String.intercalate "." rest
+      let kind := if p.startsWith "e" then "preprocessor" else "postprocessor"
+      match lookupPath t ["request", x, kind, y] with
+      | some v => some (valText v)
+      | none => some "<no value>"
+    | _ => some p
+  | some 's' =>
+    match body.toNat? with
+    | some k => if k < rows then some s!"n{k}" else none
+    | none => none
+  | _ => some p
+
+def mapMOpt {α β} (f : α → Option β) : List α → Option (List β)
+  | [] => some []
+  | x :: xs => match f x, mapMOpt f xs with
+    | some y, some ys => some (y :: ys)
+    | _, _ => none
+
+/-- the canonical request line the target logs -/
+def renderReq (reqs : List CReq) (rows : Nat) (d : ReqDef) (t : List (String × Val)) : Option String :=
+  match reqs.find? (·.name == d.name) with
+  | none => none
+  | some r =>
+    match mapMOpt (renderPart rows t) r.uri, mapMOpt (renderPart rows t) r.body with
+    | some us, some bs =>
+      let path := String.join (("/" ++ r.name) :: us.map ("/" ++ ·))
+      let hdrs := r.pre.map fun (v, code) =>
+        let val := match lookupPath t ["request", r.name, "preprocessor", v] with
+          | some x => valText x | none => "<no value>"
+        if code == "n" then "N." ++ v ++ "=" ++ escv val
+        else "V." ++ v ++ "=" ++ escv (if code == "r" then "ok" else val)
+      let hs := if hdrs.isEmpty then "-" else String.intercalate "," (hdrs.mergeSort strLe)
+      let body := String.intercalate "," bs
+      some ("R~" ++ r.method ++ "~" ++ escv path ++ "~" ++ hs ++ "~" ++ (if body.isEmpty then "-" else escv body))
+    | _, _ => none
+
+structure Resp where
+  status : Int
+  json : Option (List (String × Val))
+  tokHdr : String
+  body : String
+
+def isSub (needle hay : List Char) : Bool :=
+  match hay with
+  | [] => needle.isEmpty
+  | _ :: t => needle.isPrefixOf hay || isSub needle t
+
+def respOf (inst : Nat) (oracle : List String) (reqMethod : String) (k : Nat) : Option Resp :=
+  let code := match oracle[k]? with | some c => (if c.isEmpty then "k" else c) | none => "k"
+  let tok := s!"{inst}x{k}"
+  let okBody := "{\"tok\":\"T" ++ tok ++ "\",\"n\":" ++ toString k ++ "}"
+  let okJson : List (String × Val) := [("tok", .str ("T" ++ tok)), ("n", .num k)]
+  if code == "g" then none
+  else if code == "c" then (if reqMethod == "POST" then none else none)
+  else if code == "b" then some { status := 200, json := none, tokHdr := "H" ++ tok, body := "{\"tok\":" }
+  else if code == "e" then some { status := 200, json := some [], tokHdr := "H" ++ tok, body := "{}" }
+  else if code.startsWith "s" then
+    some { status := ((code.drop 1).toString.toInt?).getD 200, json := some okJson, tokHdr := "H" ++ tok, body := okBody }
+  else some { status := 200, json := some okJson, tokHdr := "H" ++ tok, body := okBody }
+
+def postOf (p : String) (r : Resp) : Option (List (String × Val)) :=
+  let body := (p.drop 1).toString
+  match p.toList.head? with
+  | some 'j' =>
+    match body.splitOn "=" with
+    | [v, key] => match r.json with
+      | none => none
+      | some m => (getKey key m).map fun x => [(v, x)]
+    | _ => some []
+  | some 'h' =>
+    match body.splitOn "=" with
+    | [v, h] => if h == "X-Tok" then some [(v, .str r.tokHdr)] else some []
+    | _ => some []
+  | some 'a' =>
+    let c := (body.toInt?).getD 0
+    if c != 0 && c != r.status then none else some []
+  | some 't' => if isSub body.toList r.body.toList then some [] else none
+  | _ => some []
+
+/-- all postprocessor items of all requests, globally numbered -/
+def postTable (reqs : List CReq) : List String := reqs.flatMap (·.post)
+
+def postIds (reqs : List CReq) (name : String) : List Nat :=
+  let rec go : List CReq → Nat → List Nat
+    | [], _ => []
+    | r :: rest, off => if r.name == name then List.range' off r.post.length else go rest (off + r.post.length)
+  go reqs 0
+
+def methodOfLine (l : String) : String := (l.splitOn "~").getD 1 ""
+
+def world (reqs : List CReq) (rows inst : Nat) (oracle : List String) : World String Resp where
+  render := renderReq reqs rows
+  target := fun hist => match hist.getLast? with
+    | none => none
+    | some l => respOf inst oracle (methodOfLine l) (hist.length - 1)
+  post := fun id r => match (postTable reqs)[id]? with | some p => postOf p r | none => some []
+  code := (·.status)
+
+/-- iterator held by the (shared) preprocessor object of request `name`: the one of the LAST scenario that
+references it (`InitIterator` overwrites) -/
+def iterOf (scs : List ScenarioCfg) (name : List Char) : Nat :=
+  let idxs := (List.range scs.length).filter fun i =>
+    match scs[i]? with
+    | some sc => sc.requests.any fun sh => match parseShootName sh with
+        | .ok it => it.name == name | _ => false
+    | none => false
+  idxs.getLast?.getD 0
+
+def reqDefOf (reqs : List CReq) (scs : List ScenarioCfg) (name : List Char) : Option ReqDef :=
+  -- Go: reqRegistry[req.Name] = req, the last definition of a name wins
+  match (reqs.filter (·.name.toList == name)).getLast? with
+  | none => none
+  | some r => some {
+      name := r.name
+      pre := if r.pre.isEmpty then none else some (r.pre.map fun (v, c) => (v, prePath c))
+      iter := iterOf scs name
+      posts := postIds reqs r.name }
+
+def sourceVal (rows : Nat) : Val :=
+  .map [("users", .list ((List.range rows).map fun k => .map [("id", .str s!"u{k}"), ("name", .str s!"n{k}")]))]
+
+def evStr : Ev String → Option String
+  | .request r => some r
+  | .sample tag code failed => some ("P~" ++ esc tag ++ "~" ++ toString code ++ "~" ++ (if failed then "1" else "0"))
+  | .pause _ => none
+
+structure ShotIn where
+  idx : Nat
+  sc : Scenario ReqDef
+
+def drawsOfEvent (e : String) : List Nat :=
+  if !e.startsWith "R~" then [] else
+  let hs := (e.splitOn "~").getD 3 ""
+  (splitNE hs ",").filterMap fun h =>
+    if h.startsWith "N." then
+      match h.splitOn "=" with
+      | [_, v] => if v.startsWith "u" then (v.drop 1).toString.toNat? else none
+      | _ => none
+    else none
+
+/-- run the shots of one instance; `feeds` (open-system view) gives per shot the rows its visible draws received.
+Returns event strings per shot, the iterator state and the draws that were visible to the target (a draw of a
+step whose request never left — template error after the preprocessor — is hidden: it is the last of its shot).
+`none` = the model predicts a panic. -/
+def runInstance (w : World String Resp) (rows : Nat) (shots : List ShotIn) (feeds : Option (List (List Nat)))
+    (it0 : Iter) (hist0 : List String) : Option (List (List String) × Iter × List ((Nat × String) × Nat)) :=
+  let rec go : List ShotIn → Nat → Iter → List String → List (List String) → List ((Nat × String) × Nat) →
+      Option (List (List String) × Iter × List ((Nat × String) × Nat))
+    | [], _, it, _, acc, vis => some (acc, it, vis)
+    | s :: rest, k, it, hist, acc, vis =>
+      let it := match feeds with
+        | some fs => { it with feed := some (fs.getD k []) }
+        | none => it
+      match shoot w (sourceVal rows) s.sc { iter := it, hist := hist, log := [] } with
+      | none => none
+      | some (_, g) =>
+        let evs := ("S~" ++ toString s.idx ++ "~" ++ esc (String.ofList s.sc.name)) :: g.log.filterMap evStr
+        let fresh := g.iter.trace.drop it.trace.length
+        let nVis := (evs.flatMap drawsOfEvent).length
+        go rest (k + 1) g.iter g.hist (acc ++ [evs]) (vis ++ fresh.take nVis)
+  go shots 0 it0 hist0 [] []
+
+/-! ### reading the implementation's observation -/
+
+def splitShots (evs : List String) : List (List String) :=
+  evs.foldl (fun acc e =>
+    if e.startsWith "S~" then acc ++ [[e]]
+    else match acc.reverse with
+      | [] => [[e]]
+      | l :: r => (((l ++ [e]) :: r).reverse)) []
+
+def toOEv (e : String) : Option OEv :=
+  match e.splitOn "~" with
+  | "R" :: _ :: path :: _ =>
+    some (.req (((unesc path).splitOn "/").getD 1 ""))
+  | ["P", tag, _, f] => some (.sample (unesc tag) (f == "1"))
+  | "V" :: rest => some (.viol (String.intercalate "~" rest))
+  | "X" :: rest => some (.viol ("panic " ++ String.intercalate "~" rest))
+  | _ => none
+
+def natsStr (l : List Nat) : String := String.intercalate "," (l.map toString)
+
+def handleGun (kv : List (String × String)) (impl : String) : String × String :=
+  let nInst := max 1 ((getN? kv "inst").getD 1)
+  let nShots := (getN? kv "shots").getD 0
+  let rows := (getN? kv "L").getD 0
+  let reqs := parseReqs (getS kv "rq")
+  let scs := parseSc (getS kv "sc")
+  let oracles := (getS kv "or").splitOn "/"
+  let ringO := decodeAmmo (reqDefOf reqs scs) scs
+  match ringO with
+  | .err e => (outcomeStr (ringO.bind fun _ => (.ok () : Outcome Unit)) fun _ => "", "skip:provider-" ++ e)
+  | .panic p => ("panic:" ++ p, "skip:provider-panic(C13)")
+  | .ok ring =>
+    let shots : List ShotIn := (List.range nShots).filterMap fun j => (deliver ring j).map fun sc => { idx := j, sc }
+    let shotsOf (i : Nat) := shots.filter fun s => s.idx % nInst == i
+    let ikv := parseKV impl
+    let implInst (i : Nat) : List String := splitNE (getS ikv s!"i{i}") "|"
+    let feedsOf (i : Nat) : List (List Nat) := (splitShots (implInst i)).map fun evs => evs.flatMap drawsOfEvent
+    -- model observation: closed system for one instance, open-system view (observed rows) for several
+    let closed := nInst == 1
+    let runI (i : Nat) (useFeed : Bool) :=
+      runInstance (world reqs rows i ((oracles.getD i "").splitOn ",")) rows (shotsOf i)
+        (if useFeed then some (feedsOf i) else none) Iter.empty []
+    let outs := (List.range nInst).map fun i => runI i (!closed)
+    if outs.any (·.isNone) then ("panic", if rows == 0 then "skip:empty-source(C13)" else "skip:model-panic") else
+    let outs' := outs.filterMap id
+    let parts := (List.range nInst).zip outs' |>.map fun (i, (evs, _, _)) =>
+      s!"i{i}=" ++ String.intercalate "|" evs.flatten
+    let visible (evs : List (List String)) : List Nat := evs.flatten.flatMap drawsOfEvent
+    let allRows := (outs'.flatMap fun (evs, _, _) => visible evs).mergeSort (· ≤ ·)
+    let mobs := "ok " ++ String.intercalate " " parts ++ " rows=" ++ natsStr allRows
+    -- Spec on the implementation's observation
+    let verdict : String :=
+      if !impl.startsWith "ok " then s!"fail:crash:{impl.take 80}" else
+      match domain (reqs.map (·.name.toList)) scs with
+      | some why => "skip:" ++ why
+      | none =>
+        -- expected step names per scenario
+        let expected (scName : String) : List String :=
+          match scs.find? (fun sc => String.ofList sc.name == scName) with
+          | some sc => ((specSteps (sc.requests.filterMap fun sh => (parseShootName sh).toOption)).getD []).map
+              fun (n, _) => String.ofList n
+          | none => []
+        let shotVerdicts := (List.range nInst).flatMap fun i =>
+          (splitShots (implInst i)).map fun evs =>
+            match evs with
+            | s :: rest =>
+              let scName := unesc ((s.splitOn "~").getD 2 "")
+              let j := ((s.splitOn "~").getD 1 "").toNat?.getD 0
+              -- which scenario was due: delivery in ring order
+              let due := (deliver ring j).map fun sc => String.ofList sc.name
+              if due != some scName then s!"fail:weights:shot {j} got {scName}"
+              else shotVerdict scName (expected scName) (rest.filterMap toOEv)
+            | [] => "ok"
+        match shotVerdicts.find? (· != "ok") with
+        | some v => v
+        | none =>
+          if (List.range nInst).any (fun i => (splitShots (implInst i)).length != (shotsOf i).length) then
+            "fail:count:number of shots"
+          else
+          -- round robin: run the open-system view to attribute every observed row to its counter
+          let fed := (List.range nInst).map fun i => runI i true
+          if fed.any (·.isNone) then "skip:model-panic" else
+          let traces : List (List ((Nat × String) × Nat)) := (fed.filterMap id).map fun (_, _, vis) => vis
+          let full : List ((Nat × String) × Nat) := (fed.filterMap id).flatMap fun (_, it, _) => it.trace
+          let key (k : Nat × String) : String := s!"{k.1}{k.2}"
+          let counters := dedup (traces.flatten.map fun (k, _) => key k)
+          let bad := counters.find? fun c =>
+            let perInst := traces.map fun tr => (tr.filter fun (k, _) => key k == c).map (·.2)
+            let all := perInst.flatten
+            -- a draw whose request never reached the target is invisible: the visible rows then have gaps
+            let hidden := (full.filter fun (k, _) => key k == c).length != all.length
+            !hidden && (!roundRobinOK rows all ||
+              (closed && all != (List.range all.length).map (· % rows)) ||
+              (all.length ≤ rows && perInst.any fun l => !(l.zip (l.drop 1)).all fun (a, b) => a < b))
+          match bad with
+          | some c => s!"fail:round-robin:{c}"
+          | none => "ok"
+    (mobs, verdict)
+
+def handle : Handler := fun input impl =>
+  let kv := parseKV input
+  match getS kv "kind" with
+  | "prov" => handleProv kv impl
+  | "gun" => handleGun kv impl
+  | _ => ("-", "fail:driver:unknown kind")
 
 end Pandora.Drv.C15
